@@ -199,6 +199,7 @@ func Replay(path string) (bool, string, *ReplayFile) {
 	if !ok {
 		return false, "world " + rf.World + " not in this binary", &rf
 	}
+	setupWorker(w)
 	o := ExecOpts{Tier: rf.Tier, Seed: rf.Seed, RunIdx: rf.Run, Tape: rf.Tape, Focus: rf.Focus, Verbose: true}
 	if rf.FromSeed {
 		o.Tape = nil
